@@ -1,3 +1,64 @@
+(* C14 -- COMPLETENESS of the reduced history matchers of Conc/ParMap.v (no false rejection):
+     MI.accepts_history            (parallel.MapIterator; the function the check calls), and
+     MSM.accepts_history_ws        (parallel.MapStream; the sound variant of the shipped matcher, without the
+                                    sorting of the channel buffer, which the check uses now).
+   Both are the generic matcher of GoLTS.v run on  mstep = qstep followed by sorting the worker list,
+   with the reduced enumeration [tau_labels] (if an "eager" internal label is enabled, the FIRST enabled
+   one is the only internal label explored; dispatch to the first idle worker only).  Soundness is in
+   ParMapMatcher.v; GoLTSProofs.reject_genuine cannot be instantiated ([labels_complete] is false).
+
+   Proved here (stdlib only, no axioms), for ALL configurations, value functions and histories:
+
+     MIC.mi_accepts_complete :  mi_converged fv g par bufsz items gated evs = true ->
+        run (MI.qstep fv) (MI.init g par bufsz items gated) ls = Some s -> mi_trace ls = evs ->
+        MI.accepts_history fv g par bufsz items gated evs = true
+     MIC.mi_reject_genuine   :  mi_converged ... = true -> MI.accepts_history ... = false ->
+        forall ls s, run (MI.qstep fv) (MI.init ...) ls = Some s -> mi_trace ls <> evs
+     MIC.mi_accepts_iff
+     MSC.ms_ws_accepts_complete, MSC.ms_ws_reject_genuine, MSC.ms_ws_accepts_iff : the same for
+        MSM.accepts_history_ws / MS.qstep / MS.init c, under  ms_ws_converged fv c evs = true.
+   [mi_converged] / [ms_ws_converged] are GoLTSProofs.convergedb on exactly the functions the matcher
+   is run with (mstep, tau_labels, labels_ev, lab_eqb, st_eqb, fuel 64): the executable test "every
+   closure computed along the history reached its fixpoint within the fuel".
+
+   Method.
+   Part 1 ([Section MatcherPOR], generic): completeness of a matcher that (a) normalises states by
+   [canon], (b) explores a reduced set of internal labels, under hypotheses about a relation Q between
+   model states and matcher states and a class of "eager" labels:
+     - Q is reflexive, transitive, contains [canon]; it is a forward simulation for every label (an
+       internal model step may be answered by no step: stuttering) and a backward simulation for eager
+       steps;
+     - [diamond]: an enabled eager step  a  and any other enabled step  l  commute (same state in both
+       orders, a stays eager), or  l  is internal and  a  after  l  reaches a state Q-related to  a  alone;
+     - eager steps decrease a measure that [canon] preserves;
+     - [labels_red]: from a state with an enabled internal step the enumeration contains either an
+       enabled eager label or a label leading to a Q-related state.
+   [ahead s s'] (s' is reached from s by eager steps, up to Q), [path], [settle], [sim] follow
+   GroupMatcher.v, generalised to a directed relation and a normalising matcher.
+
+   Part 2 (MapIterator).  Q = MIM.R (a permutation of the workers; [sim_qstep] is the simulation,
+   [eager_sim] the backward one).  Eager labels TCloseIn / TInClosed w / TWorkerDone w: [diamond_*]
+   against all 17 labels; the only invariant needed is "[in] closed -> the dispatcher is done" (so that
+   TInClosed w does not compete with TDispatch w).  A dispatch to any idle worker is answered by the
+   dispatch to the first one ([perm_upd_same_val]).
+
+   Part 3 (MapStream).  Eager labels TCloseIn / TLoop / TPut / TWait / TCloseWait / TInClosed w /
+   TWExit w and TDRet / TWRet w of a goroutine that returned nil: [diamond_*] against all 35 labels,
+   on states satisfying  good: "[in] closed -> the dispatcher is past close(in)" and
+   "egdone = number of goroutines in their final state" (so that TDRet / TWRet never disable TWait /
+   TCloseWait).  ONE pair does not commute: TWait / TCloseWait turn the group context from GLive to
+   GDone ByWait and so disable TParentProp.  [alldone]: every goroutine has called wg.Done (this is
+   the enabling condition of TWait / TCloseWait); then the dispatcher is SDone and every worker TDone
+   ([alldone_inv]) and NO label other than TParentProp depends on the group context:
+   [step_set_g] (all 35 labels).  Hence Q s s' :=  s' is s up to a permutation of the workers, and, if
+   alldone, the context of s' may be an arbitrary cancelled one.  A TParentProp of the model in an
+   alldone state is answered by stuttering ([Q_fwd]); quiescence transfers because a cancelled context
+   only removes TParentProp ([quiescent_set_g]).
+
+   What remains conditional: completeness is relative to the executable convergence test (fuel 64
+   waves per closure); no closed bound "fuel >= number of tau-reachable states" is proved.
+   Nothing is claimed about MS.accepts_history (with the sorted channel buffer): it is unsound
+   (ParMapMatcher.ms_accepts_sound_refuted). *)
 From Juniper Require Import Common.Base Conc.GoLTS Conc.GoLTSProofs Conc.ParMap Conc.ParMapMatcher.
 From Coq Require Import Arith PeanoNat Permutation.
 Local Open Scope nat_scope.
@@ -257,3 +318,1219 @@ Section MatcherPOR.
     - exact Ht.
   Qed.
 End MatcherPOR.
+
+(* ====================================================================== *)
+(* shared list lemmas                                                      *)
+(* ====================================================================== *)
+Lemma upd_comm {A} (l : list A) n m x y : n <> m -> upd (upd l n x) m y = upd (upd l m y) n x.
+Proof.
+  revert n m; induction l as [|h t IH]; intros [|n] [|m] H; simpl; auto; try congruence.
+  rewrite IH; [reflexivity | congruence].
+Qed.
+
+Fixpoint msum {A} (m : A -> nat) (l : list A) : nat :=
+  match l with [] => 0 | x :: t => m x + msum m t end.
+
+Lemma msum_upd {A} (m : A -> nat) l n x y :
+  nth_error l n = Some y -> msum m (upd l n x) + m y = msum m l + m x.
+Proof.
+  revert n; induction l as [|h t IH]; intros [|n] H; simpl in *; try discriminate.
+  - inversion H; subst. lia.
+  - specialize (IH n H). lia.
+Qed.
+
+Lemma msum_perm {A} (m : A -> nat) l l' : Permutation l l' -> msum m l = msum m l'.
+Proof. induction 1; simpl; lia. Qed.
+
+Lemma perm_upd_head {A} (x y : A) : forall t j, nth_error t j = Some x -> Permutation (y :: t) (x :: upd t j y).
+Proof.
+  induction t as [|h t IH]; intros [|j] H; simpl in H; try discriminate.
+  - inversion H; subst. simpl. apply perm_swap.
+  - simpl. eapply perm_trans; [apply perm_swap|].
+    eapply perm_trans; [apply perm_skip; apply (IH j H) | apply perm_swap].
+Qed.
+
+Lemma perm_upd_same_val {A} (x y : A) : forall l w w0,
+  nth_error l w = Some x -> nth_error l w0 = Some x -> Permutation (upd l w y) (upd l w0 y).
+Proof.
+  induction l as [|h t IH]; intros [|w] [|w0] H H0; simpl in H, H0; try discriminate; simpl.
+  - apply Permutation_refl.
+  - inversion H; subst h. apply perm_upd_head. exact H0.
+  - inversion H0; subst h. apply Permutation_sym. apply perm_upd_head. exact H.
+  - apply perm_skip. apply IH; assumption.
+Qed.
+
+Lemma nth_lt_len {A} (l : list A) n x : nth_error l n = Some x -> n < length l.
+Proof. intros H. apply nth_error_Some. congruence. Qed.
+
+Lemma nth_upd_same_some {A} (l : list A) n x y : nth_error l n = Some y -> nth_error (upd l n x) n = Some x.
+Proof. intros H. apply nth_error_upd_same. eapply nth_lt_len; exact H. Qed.
+
+(* ====================================================================== *)
+(* Part 2: MapIterator                                                     *)
+(* ====================================================================== *)
+Module MIC.
+Import MI MIM.
+
+Ltac dstepH H :=
+  repeat match type of H with
+         | match ?e with _ => _ end = Some _ =>
+             let E := fresh "E" in destruct e eqn:E; try discriminate H
+         end.
+
+(* the relation between a model state and a matcher state: a permutation of the workers *)
+Lemma R_sym a c : R a c -> R c a.
+Proof.
+  intros [l [Hp ->]]. exists (ws a). split.
+  - rewrite ws_setws. apply Permutation_sym. exact Hp.
+  - rewrite setws_setws, setws_id. reflexivity.
+Qed.
+
+Lemma R_trans a b c : R a b -> R b c -> R a c.
+Proof.
+  intros [l [Hp ->]] [l' [Hp' ->]]. exists l'. split.
+  - rewrite ws_setws in Hp'. eapply perm_trans; eassumption.
+  - rewrite setws_setws. reflexivity.
+Qed.
+
+Lemma R_canon s : R s (canon s).
+Proof. exists (wsort (ws s)). split; [apply Permutation_sym; apply wsort_perm | apply canon_setws]. Qed.
+
+(* invariant: once [in] is closed the dispatcher is done *)
+Definition good (s : st) : Prop := in_closed s = true -> disp s = DDone.
+
+Definition eager (a : lab) : Prop :=
+  match a with TCloseIn | TInClosed _ | TWorkerDone _ => True | _ => False end.
+
+Definition mu_w (x : wpc) : nat := match x with WIdle => 2 | WExit => 1 | _ => 0 end.
+Definition mu (s : st) : nat := match disp s with DCloseIn => 1 | _ => 0 end + msum mu_w (ws s).
+
+Section S.
+Variable fv : Z -> Z.
+
+Lemma good_init g par bufsz items gated : good (init g par bufsz items gated).
+Proof. unfold good, init. prj. discriminate. Qed.
+
+Lemma good_step s l s' : good s -> step fv s l = Some s' -> good s'.
+Proof.
+  intros Hg Hs. destruct s as [f1 f2 f3 f4 f5 d f7 ws1 ic f10 f11 f12 f13 f14 f15].
+  unfold good in *. prj_in Hg. unfold step, getw, set_disp, set_w, set_cons in Hs. prj_in Hs.
+  destruct l; dstepH Hs; inversion Hs; subst s'; prj; intros Hic;
+    try (specialize (Hg Hic)); try congruence; try discriminate; try reflexivity.
+  rewrite Hg. reflexivity.
+Qed.
+
+Lemma good_qstep s l s' : good s -> qstep fv s l = Some s' -> good s'.
+Proof.
+  intros Hg Hs. destruct l; try (exact (good_step s _ s' Hg Hs)).
+  unfold qstep in Hs. destruct (quiescent fv s); [|discriminate Hs]. inversion Hs; subst s'. exact Hg.
+Qed.
+
+Lemma good_setws s l : good s -> good (setws s l).
+Proof. intros H. exact H. Qed.
+
+Lemma good_canon s : good s -> good (canon s).
+Proof. intros H. exact H. Qed.
+
+
+Lemma eager_sim a l lb a' :
+  Permutation (ws a) l -> eager lb -> step fv a lb = Some a' ->
+  exists lb' l', eager lb' /\ step fv (setws a l) lb' = Some (setws a' l') /\ Permutation (ws a') l'.
+Proof.
+  intros Hp He Hs. pose proof (Permutation_length Hp) as Hlen.
+  destruct a as [f1 f2 f3 f4 f5 d f7 ws1 ic f10 f11 f12 f13 f14 f15]. prj_in Hp. prj_in Hlen.
+  destruct lb; simpl in He; try contradiction; unfold step, getw, set_w in Hs; prj_in Hs.
+  - dstepH Hs. inversion Hs; subst a'. exists TCloseIn, l. unf.
+    split; [exact I|]. split; [reflexivity | exact Hp].
+  - destruct (nth_error ws1 w) as [x|] eqn:E; [|discriminate Hs].
+    destruct (perm_nth_upd _ _ Hp _ _ E) as [w' [E' Hu]].
+    dstepH Hs. inversion Hs; subst a'. exists (TInClosed w'). eexists. unf. rewrite E'.
+    split; [exact I|]. split; [reflexivity | apply Hu].
+  - destruct (nth_error ws1 w) as [x|] eqn:E; [|discriminate Hs].
+    destruct (perm_nth_upd _ _ Hp _ _ E) as [w' [E' Hu]].
+    dstepH Hs. inversion Hs; subst a'. exists (TWorkerDone w'). eexists. unf. rewrite E', <- Hlen.
+    split; [exact I|]. split; [reflexivity | apply Hu].
+Qed.
+
+Lemma mu_dec s a s1 : eager a -> step fv s a = Some s1 -> mu s1 < mu s.
+Proof.
+  intros He Hs. destruct s as [f1 f2 f3 f4 f5 d f7 ws1 ic f10 f11 f12 f13 f14 f15].
+  destruct a; simpl in He; try contradiction; unfold step, getw, set_w in Hs; prj_in Hs; dstepH Hs;
+    inversion Hs; subst s1; unfold mu; prj;
+    try (match goal with E : nth_error _ ?w = Some ?y |- context [upd _ ?w ?x] =>
+           pose proof (msum_upd mu_w _ w x y E) as Hu; simpl in Hu end); try lia.
+Qed.
+
+Lemma mu_canon s : mu (canon s) = mu s.
+Proof. unfold mu, canon. prj. rewrite (msum_perm mu_w _ _ (wsort_perm (ws s))). reflexivity. Qed.
+
+Lemma eager_vis a : eager a -> vis a = None.
+Proof. destruct a; simpl; intros H; try contradiction; reflexivity. Qed.
+
+Lemma eager_qstep s a : eager a -> qstep fv s a = step fv s a.
+Proof. destruct a; simpl; intros H; try contradiction; reflexivity. Qed.
+
+Lemma eager_qcls a : eager a -> qcls a = true.
+Proof. destruct a; simpl; intros H; try contradiction; reflexivity. Qed.
+
+Lemma eager_not_quiescent s a s1 : eager a -> step fv s a = Some s1 -> quiescent fv s = false.
+Proof.
+  intros He Hs. destruct (quiescent fv s) eqn:Q; [|reflexivity].
+  rewrite (proj1 (quiescent_spec fv s) Q a (eager_qcls a He)) in Hs. discriminate Hs.
+Qed.
+
+
+(* ---- an enabled eager step commutes with every other enabled step ---- *)
+Ltac fin_fields :=
+  apply f_equal; rewrite ?upd_length; f_equal; try reflexivity; try (apply upd_comm; congruence).
+
+Ltac windex Hl w :=
+  match type of Hl with
+  | context [nth_error _ ?w0] =>
+      lazymatch w0 with
+      | w => fail
+      | _ => destruct (Nat.eq_dec w0 w) as [->|Hne]
+      end
+  end.
+
+Lemma diamond_TCloseIn s s1 l t :
+  step fv s TCloseIn = Some s1 -> step fv s l = Some t ->
+  l = TCloseIn \/ exists u, step fv s1 l = Some u /\ step fv t TCloseIn = Some u.
+Proof.
+  intros Ha Hl. destruct s as [f1 f2 f3 f4 f5 d f7 ws1 ic f10 f11 f12 f13 f14 f15].
+  unfold step in Ha; prj_in Ha. dstepH Ha. inversion Ha; subst s1; clear Ha.
+  destruct l; unfold step, getw, set_disp, set_w, set_cons in Hl |- *; prj_in Hl; prj;
+    try discriminate Hl; try (left; reflexivity);
+    dstepH Hl; inversion Hl; subst t; clear Hl; right; eexists; (split; [reflexivity|]); prj; reflexivity.
+Qed.
+
+
+Ltac upd_other :=
+  repeat match goal with
+         | H : ?a <> ?b |- context [nth_error (upd _ ?b _) ?a] => rewrite (nth_error_upd_other _ b a _ (not_eq_sym H))
+         | H : ?a <> ?b |- context [nth_error (upd _ ?a _) ?b] => rewrite (nth_error_upd_other _ a b _ H)
+         end.
+Ltac wcase Hl E w :=
+  try (windex Hl w; [ rewrite E in Hl; try discriminate Hl | upd_other ]).
+
+Lemma diamond_TInClosed s w s1 l t :
+  good s -> step fv s (TInClosed w) = Some s1 -> step fv s l = Some t ->
+  l = TInClosed w \/ exists u, step fv s1 l = Some u /\ step fv t (TInClosed w) = Some u.
+Proof.
+  intros Hg Ha Hl. destruct s as [f1 f2 f3 f4 f5 d f7 ws1 ic f10 f11 f12 f13 f14 f15].
+  unfold step, getw, set_w in Ha; prj_in Ha. dstepH Ha. inversion Ha; subst s1; clear Ha.
+  unfold good in Hg; prj_in Hg. specialize (Hg eq_refl). subst d.
+  destruct l; unfold step, getw, set_disp, set_w, set_cons in Hl |- *; prj_in Hl; prj;
+    try discriminate Hl; wcase Hl E w; try (left; reflexivity);
+    dstepH Hl; inversion Hl; subst t; clear Hl; right; eexists; (split; [reflexivity|]); prj;
+    upd_other; rewrite ?E; try reflexivity; fin_fields.
+Qed.
+
+Lemma diamond_TWorkerDone s w s1 l t :
+  step fv s (TWorkerDone w) = Some s1 -> step fv s l = Some t ->
+  l = TWorkerDone w \/ exists u, step fv s1 l = Some u /\ step fv t (TWorkerDone w) = Some u.
+Proof.
+  intros Ha Hl. destruct s as [f1 f2 f3 f4 f5 d f7 ws1 ic f10 f11 f12 f13 f14 f15].
+  unfold step, getw, set_w in Ha; prj_in Ha. dstepH Ha. inversion Ha; subst s1; clear Ha.
+  destruct l; unfold step, getw, set_disp, set_w, set_cons in Hl |- *; prj_in Hl; prj;
+    try discriminate Hl; wcase Hl E w; try (left; reflexivity);
+    dstepH Hl; inversion Hl; subst t; clear Hl; right; eexists; (split; [reflexivity|]); prj;
+    upd_other; rewrite ?E; try reflexivity; fin_fields.
+Qed.
+
+
+Lemma diamond s a s1 l t :
+  good s -> eager a -> qstep fv s a = Some s1 -> qstep fv s l = Some t ->
+  l = a \/
+  (exists u, qstep fv s1 l = Some u /\ qstep fv t a = Some u /\ eager a) \/
+  (vis l = None /\ exists u, qstep fv t a = Some u /\ eager a /\ R u s1).
+Proof.
+  intros Hg He Ha Hl. rewrite (eager_qstep s a He) in Ha.
+  assert (Hd : l = LQuiesce \/ l <> LQuiesce) by (destruct l; (left; reflexivity) || (right; discriminate)).
+  destruct Hd as [->|Hnq].
+  { simpl in Hl. rewrite (eager_not_quiescent s a s1 He Ha) in Hl. discriminate Hl. }
+  rewrite (qstep_step fv s l Hnq) in Hl.
+  assert (Hc : l = a \/ exists u, step fv s1 l = Some u /\ step fv t a = Some u).
+  { destruct a; simpl in He; try contradiction.
+    - exact (diamond_TCloseIn s s1 l t Ha Hl).
+    - exact (diamond_TInClosed s w s1 l t Hg Ha Hl).
+    - exact (diamond_TWorkerDone s w s1 l t Ha Hl). }
+  destruct Hc as [->|[u [Hu1 Hu2]]]; [left; reflexivity|].
+  right. left. exists u. rewrite (qstep_step fv s1 l Hnq), (eager_qstep t a He).
+  split; [exact Hu1|]. split; [exact Hu2 | exact He].
+Qed.
+
+(* ---- the reduced enumeration ---- *)
+Lemma in_eager_labels s a : In a (eager_labels s) -> eager a.
+Proof.
+  unfold eager_labels. intros [<-|Hin]; [exact I|].
+  apply in_flat_map in Hin. destruct Hin as [w [_ H]]. simpl in H.
+  destruct H as [<-|[<-|[]]]; exact I.
+Qed.
+
+Lemma first_idle_spec : forall l i w, nth_error l w = Some WIdle ->
+  exists w0, first_idle l i = [i + w0] /\ nth_error l w0 = Some WIdle.
+Proof.
+  induction l as [|x t IH]; intros i w H; [destruct w; discriminate H|].
+  assert (Hx : x = WIdle \/ x <> WIdle) by (destruct x; (left; reflexivity) || (right; discriminate)).
+  destruct Hx as [->|Hx].
+  - exists 0. rewrite Nat.add_0_r. split; reflexivity.
+  - destruct w as [|w]; simpl in H; [inversion H; contradiction|].
+    destruct (IH (S i) w H) as [w0 [Hf Hn]]. exists (S w0).
+    replace (i + S w0) with (S i + w0) by lia. split; [|exact Hn].
+    destruct x; try exact Hf. contradiction Hx; reflexivity.
+Qed.
+
+Ltac in_list := solve [simpl; repeat (first [left; reflexivity | right])].
+
+Lemma labels_red s l t :
+  good s -> vis l = None -> qstep fv s l = Some t ->
+  (exists a0 s1, In a0 (tau_labels fv s) /\ eager a0 /\ qstep fv s a0 = Some s1) \/
+  (exists l0 t0, In l0 (tau_labels fv s) /\ vis l0 = None /\ qstep fv s l0 = Some t0 /\ R t t0).
+Proof.
+  intros Hg Hv Hst. unfold tau_labels.
+  destruct (filter (enabled fv s) (eager_labels s)) as [|a0 rest] eqn:Ef.
+  - right.
+    assert (Hno : forall a, In a (eager_labels s) -> step fv s a = None).
+    { intros a Hin. destruct (step fv s a) as [x|] eqn:Es; [exfalso|reflexivity].
+      assert (Hf : In a (filter (enabled fv s) (eager_labels s))).
+      { apply filter_In. split; [exact Hin | unfold enabled; rewrite Es; reflexivity]. }
+      rewrite Ef in Hf. destruct Hf. }
+    assert (Hw : forall w x, nth_error (ws s) w = Some x -> In w (seq 0 (length (ws s)))).
+    { intros w x E. apply in_seq. split; [apply Nat.le_0_l | exact (getw_lt s w x E)]. }
+    destruct l; simpl in Hv; try discriminate Hv; clear Hv; cbv beta iota delta [qstep] in Hst.
+    + exists TAcquire, t. split; [in_list|]. split; [reflexivity|]. split; [exact Hst | apply R_refl].
+    + (* TDispatch *)
+      unfold step, getw in Hst. destruct (disp s) as [ | |k|k|k| | ] eqn:Ed; try discriminate Hst.
+      destruct (nth_error (ws s) w) as [x|] eqn:E; [|discriminate Hst].
+      destruct x; try discriminate Hst. inversion Hst; subst t; clear Hst.
+      destruct (first_idle_spec (ws s) 0 w E) as [w0 [Hf E0]]. simpl in Hf.
+      exists (TDispatch w0). eexists. split.
+      { apply in_or_app; right. apply in_or_app; left. rewrite Hf. left; reflexivity. }
+      split; [reflexivity|]. split.
+      { simpl. unfold getw. rewrite Ed, E0. reflexivity. }
+      exists (upd (ws s) w0 (WHas k)). split.
+      * unfold set_disp, set_w. prj. apply perm_upd_same_val with (x := WIdle); assumption.
+      * reflexivity.
+    + exfalso. rewrite (Hno TCloseIn) in Hst; [discriminate Hst | left; reflexivity].
+    + exfalso. unfold step, getw in Hst. destruct (nth_error (ws s) w) as [x|] eqn:E; [|discriminate Hst].
+      assert (Hin : In (TInClosed w) (eager_labels s)).
+      { right. apply in_flat_map. exists w. split; [exact (Hw w x E) | in_list]. }
+      pose proof (Hno _ Hin) as Hn. unfold step, getw in Hn. rewrite E in Hn. rewrite Hn in Hst. discriminate Hst.
+    + exfalso. unfold step, getw in Hst. destruct (nth_error (ws s) w) as [x|] eqn:E; [|discriminate Hst].
+      assert (Hin : In (TWorkerDone w) (eager_labels s)).
+      { right. apply in_flat_map. exists w. split; [exact (Hw w x E) | in_list]. }
+      pose proof (Hno _ Hin) as Hn. unfold step, getw in Hn. rewrite E in Hn. rewrite Hn in Hst. discriminate Hst.
+    + exists TLoop, t. split; [in_list|]. split; [reflexivity|]. split; [exact Hst | apply R_refl].
+    + exists (TResult w), t. split.
+      { apply in_or_app; right. apply in_or_app; right. apply in_map.
+        unfold step, getw in Hst. destruct (nth_error (ws s) w) as [x|] eqn:E; [exact (Hw w x E) | discriminate Hst]. }
+      split; [reflexivity|]. split; [exact Hst | apply R_refl].
+    + exists TChClosed, t. split; [in_list|]. split; [reflexivity|]. split; [exact Hst | apply R_refl].
+  - left.
+    assert (Hf : In a0 (filter (enabled fv s) (eager_labels s))) by (rewrite Ef; left; reflexivity).
+    apply filter_In in Hf. destruct Hf as [Hin Hen].
+    pose proof (in_eager_labels s a0 Hin) as He.
+    unfold enabled in Hen. destruct (step fv s a0) as [s1|] eqn:Es; [|discriminate Hen].
+    exists a0, s1. split; [left; reflexivity|]. split; [exact He|]. rewrite (eager_qstep s a0 He). exact Es.
+Qed.
+
+(* ---- simulations ---- *)
+Lemma Q_fwd s s' l t :
+  good s -> good s' -> R s s' -> qstep fv s l = Some t ->
+  (vis l = None /\ R t s') \/ (exists l' t', vis l' = vis l /\ qstep fv s' l' = Some t' /\ R t t').
+Proof.
+  intros _ _ [l0 [Hp ->]] Hst. right.
+  destruct (sim_qstep fv s l0 l t Hp Hst) as [lb' [l' [Hs' [Hp' Hv]]]].
+  exists lb', (setws t l'). split; [exact Hv|]. split; [exact Hs'|]. exists l'. split; [exact Hp' | reflexivity].
+Qed.
+
+Lemma Q_bwd_eager s s' a t' :
+  good s -> good s' -> R s s' -> eager a -> qstep fv s' a = Some t' ->
+  exists a' t, eager a' /\ qstep fv s a' = Some t /\ R t t'.
+Proof.
+  intros _ _ HR He Hst. rewrite (eager_qstep s' a He) in Hst.
+  apply R_sym in HR. destruct HR as [l0 [Hp ->]].
+  destruct (eager_sim s' l0 a t' Hp He Hst) as [a' [l' [He' [Hs' Hp']]]].
+  exists a', (setws t' l'). split; [exact He'|]. rewrite (eager_qstep _ a' He'). split; [exact Hs'|].
+  apply R_sym. exists l'. split; [exact Hp' | reflexivity].
+Qed.
+
+Definition mi_converged (g par bufsz : Z) (items : list Z) (gated : list bool) (evs : list lab) : bool :=
+  convergedb st lab lab (MI.mstep fv) vis lab_eqb st_eqb (tau_labels fv) labels_ev 64
+             (init g par bufsz items gated) evs.
+
+(* COMPLETENESS of the shipped matcher of MapIterator *)
+Theorem mi_accepts_complete g par bufsz items gated evs ls s :
+  mi_converged g par bufsz items gated evs = true ->
+  run (qstep fv) (init g par bufsz items gated) ls = Some s -> mi_trace ls = evs ->
+  accepts_history fv g par bufsz items gated evs = true.
+Proof.
+  intros Hc Hr Ht.
+  apply (por_accepts_complete st lab lab (qstep fv) vis lab_eqb st_eqb canon (tau_labels fv) labels_ev
+           good R (fun _ a => eager a) mu
+           good_qstep good_canon R_refl R_trans R_canon mi_st_eqb_spec
+           (fun l e H => lab_eqb_refl_vis e e (vis_idem l e H))
+           Q_fwd Q_bwd_eager (fun _ a => eager_vis a) diamond
+           (fun s a s1 He Hs => mu_dec s a s1 He (eq_trans (eq_sym (eager_qstep s a He)) Hs))
+           mu_canon labels_red (labels_ev_complete fv)
+           64 (init g par bufsz items gated) evs ls s (good_init g par bufsz items gated) Hc Hr Ht).
+Qed.
+
+Theorem mi_reject_genuine g par bufsz items gated evs :
+  mi_converged g par bufsz items gated evs = true ->
+  accepts_history fv g par bufsz items gated evs = false ->
+  forall ls s, run (qstep fv) (init g par bufsz items gated) ls = Some s -> mi_trace ls <> evs.
+Proof.
+  intros Hc Hacc ls s Hr Ht.
+  rewrite (mi_accepts_complete g par bufsz items gated evs ls s Hc Hr Ht) in Hacc. discriminate.
+Qed.
+
+Theorem mi_accepts_iff g par bufsz items gated evs :
+  mi_converged g par bufsz items gated evs = true ->
+  (accepts_history fv g par bufsz items gated evs = true <->
+   exists ls s, run (qstep fv) (init g par bufsz items gated) ls = Some s /\ mi_trace ls = evs).
+Proof.
+  intros Hc. split.
+  - apply mi_accepts_sound.
+  - intros [ls [s [Hr Ht]]]. eapply mi_accepts_complete; eassumption.
+Qed.
+
+End S.
+
+(* ---- non-vacuity ---- *)
+Example ex_mi_accepts :
+  accepts_history pm_fx 1 2 0 ex_items ex_gated ex_hist = true /\
+  mi_converged pm_fx 1 2 0 ex_items ex_gated ex_hist = true.
+Proof. vm_compute. split; reflexivity. Qed.
+
+(* the rejection of the SHIPPED matcher is genuine *)
+Example ex_mi_rejects :
+  accepts_history pm_fx 1 2 0 ex_items ex_gated ex_bad = false /\
+  mi_converged pm_fx 1 2 0 ex_items ex_gated ex_bad = true.
+Proof. vm_compute. split; reflexivity. Qed.
+
+Example ex_mi_no_run :
+  forall ls s, run (qstep pm_fx) (init 1 2 0 ex_items ex_gated) ls = Some s -> mi_trace ls <> ex_bad.
+Proof. apply mi_reject_genuine; [exact (proj2 ex_mi_rejects) | exact (proj1 ex_mi_rejects)]. Qed.
+
+(* the hypotheses of the commutation lemmas are satisfiable: a worker leaving its loop and the consumer *)
+Example ex_mi_diamond :
+  exists s s1 t u, reachable (qstep pm_fx) (init 1 2 0 [] []) s /\ good s /\
+    step pm_fx s (TInClosed 1) = Some s1 /\ step pm_fx s (TInClosed 0) = Some t /\
+    step pm_fx s1 (TInClosed 0) = Some u /\ step pm_fx t (TInClosed 1) = Some u.
+Proof.
+  destruct (run (qstep pm_fx) (init 1 2 0 [] []) [LSrcEnter; LSrcExit None; TCloseIn]) as [s|] eqn:E;
+    [|vm_compute in E; discriminate E].
+  assert (Hre : reachable (qstep pm_fx) (init 1 2 0 [] []) s) by (eexists; exact E).
+  vm_compute in E. inversion E; subst s.
+  do 4 eexists. split; [exact Hre|]. split; [intros _; reflexivity|]. repeat split; vm_compute; reflexivity.
+Qed.
+End MIC.
+
+(* ====================================================================== *)
+(* Part 3: MapStream                                                       *)
+(* ====================================================================== *)
+Module MSC.
+Import MS MSM.
+
+Ltac dstepH H :=
+  repeat match type of H with
+         | match ?e with _ => _ end = Some _ =>
+             let E := fresh "E" in destruct e eqn:E; try discriminate H
+         end.
+
+Definition wfin (x : wpc) : nat := match x with TDone => 1 | _ => 0 end.
+Definition ddone (d : dpc) : nat := match d with SDone => 1 | _ => 0 end.
+Definition dpast (d : dpc) : Prop :=
+  match d with SCloseSrc _ | SInClose _ | SRet _ | SDone => True | _ => False end.
+
+(* invariants: once [in] is closed the dispatcher is past close(in); egdone counts the goroutines
+   that have called wg.Done *)
+Definition good (s : st) : Prop :=
+  (in_closed s = true -> dpast (disp s)) /\ egdone s = msum wfin (ws s) + ddone (disp s).
+
+(* every goroutine of the errgroup has called wg.Done *)
+Definition alldone (s : st) : Prop := egdone s = S (length (ws s)).
+
+Definition eager (s : st) (a : lab) : Prop :=
+  match a with
+  | TCloseIn | TLoop | TPut | TWait | TCloseWait | TInClosed _ | TWExit _ => True
+  | TDRet => disp s = SRet None
+  | TWRet w => nth_error (ws s) w = Some (TRet None)
+  | _ => False
+  end.
+
+Definition mu_w (x : wpc) : nat := match x with TIdle => 3 | TExit _ => 2 | TRet _ => 1 | _ => 0 end.
+Definition mu_d (d : dpc) : nat := match d with SCloseIn _ | SRet _ => 1 | _ => 0 end.
+Definition mu_c (c : cpc) : nat := match c with KLoop _ => 2 | KPut _ _ | KWait | KClose2 => 1 | _ => 0 end.
+Definition mu (s : st) : nat := mu_d (disp s) + mu_c (cons s) + msum mu_w (ws s).
+
+Lemma msum_le_length {A} (m : A -> nat) l : (forall x, m x <= 1) -> msum m l <= length l.
+Proof. intros H. induction l as [|h t IH]; simpl; [lia|]. specialize (H h). lia. Qed.
+
+Lemma msum_full {A} (m : A -> nat) l :
+  (forall x, m x <= 1) -> msum m l = length l -> forall w x, nth_error l w = Some x -> m x = 1.
+Proof.
+  intros Hm. induction l as [|h t IH]; intros H w x Hx; [destruct w; discriminate|].
+  simpl in H. pose proof (msum_le_length m t Hm) as Hle. pose proof (Hm h) as Hh.
+  destruct w as [|w]; simpl in Hx.
+  - inversion Hx; subst. lia.
+  - apply (IH ltac:(lia) w x Hx).
+Qed.
+
+Lemma wfin_le1 x : wfin x <= 1.
+Proof. destruct x; simpl; lia. Qed.
+
+Lemma alldone_inv s : good s -> alldone s ->
+  disp s = SDone /\ forall w x, nth_error (ws s) w = Some x -> x = TDone.
+Proof.
+  intros [_ Hg] Ha. unfold alldone in Ha. rewrite Ha in Hg.
+  pose proof (msum_le_length wfin (ws s) wfin_le1) as Hle.
+  assert (Hd : ddone (disp s) <= 1) by (destruct (disp s); simpl; lia).
+  split.
+  - destruct (disp s); simpl in Hg; try lia. reflexivity.
+  - intros w x Hx. assert (Hm : msum wfin (ws s) = length (ws s)) by lia.
+    pose proof (msum_full wfin (ws s) wfin_le1 Hm w x Hx) as H1. destruct x; simpl in H1; try lia. reflexivity.
+Qed.
+
+Section S.
+Variable fv : Z -> Z.
+
+Lemma good_init c : good (init c).
+Proof.
+  unfold good, init. prj. split; [discriminate|]. simpl.
+  generalize (Z.to_nat (norm_par (c_gomaxprocs c) (c_par c))). intros n.
+  induction n as [|n IH]; simpl; [reflexivity | exact IH].
+Qed.
+
+Ltac msum_facts :=
+  repeat match goal with
+         | E : nth_error ?l ?w = Some ?y |- context [msum wfin (upd ?l ?w ?x)] =>
+             lazymatch goal with
+             | _ : msum wfin (upd l w x) + _ = _ |- _ => fail
+             | _ => let U := fresh "U" in pose proof (msum_upd wfin l w x y E) as U; cbn [wfin] in U
+             end
+         end.
+
+Lemma good_step s l s' : good s -> step fv s l = Some s' -> good s'.
+Proof.
+  intros [Hg1 Hg2] Hs.
+  destruct s as [f1 f2 f3 f4 f5 f6 f7 f8 f9 f10 f11 gs ee ed f15 d tk ws1 ic f20 f21 f22 f23 f24 f25
+                 f26 f27 f28 f29 f30 f31 f32].
+  prj_in Hg1. prj_in Hg2.
+  unfold step, getw, set_disp, set_w, set_cons, set_g, set_harness in Hs. prj_in Hs.
+  destruct l; dstepH Hs; inversion Hs; subst s'; clear Hs; unfold good; prj;
+    (split; [ try exact Hg1; try (intros Hic; try specialize (Hg1 Hic); try exact I; try exact Hg1;
+                                   try discriminate Hic; try contradiction)
+            | msum_facts; cbn [ddone] in *; try lia ]).
+Qed.
+
+Lemma good_qstep s l s' : good s -> qstep fv s l = Some s' -> good s'.
+Proof.
+  intros Hg Hs. destruct l; try (exact (good_step s _ s' Hg Hs)).
+  unfold qstep in Hs. destruct (quiescent fv s); [|discriminate Hs]. inversion Hs; subst s'. exact Hg.
+Qed.
+
+Lemma good_setws s l : Permutation (ws s) l -> good s -> good (setws s l).
+Proof.
+  intros Hp [H1 H2]. split; [exact H1|]. unfold setws. prj.
+  rewrite <- (msum_perm wfin _ _ Hp). exact H2.
+Qed.
+
+Lemma good_set_g s x : good s -> good (set_g s x).
+Proof. intros H. exact H. Qed.
+
+Lemma good_canon s : good s -> good (canon_ws s).
+Proof. intros H. apply good_setws; [apply Permutation_sym; apply wsort_perm | exact H]. Qed.
+
+Lemma alldone_step s l t : good s -> alldone s -> step fv s l = Some t -> alldone t.
+Proof.
+  intros Hg Ha Hs. destruct (alldone_inv s Hg Ha) as [Hd Hw]. unfold alldone in *.
+  destruct s as [f1 f2 f3 f4 f5 f6 f7 f8 f9 f10 f11 gs ee ed f15 d tk ws1 ic f20 f21 f22 f23 f24 f25
+                 f26 f27 f28 f29 f30 f31 f32].
+  prj_in Ha. prj_in Hd. prj_in Hw. subst d.
+  unfold step, getw, set_disp, set_w, set_cons, set_g, set_harness in Hs. prj_in Hs.
+  destruct l; dstepH Hs; inversion Hs; subst t; clear Hs; prj; rewrite ?upd_length; try exact Ha;
+    match goal with E : nth_error ws1 _ = Some _ |- _ => apply Hw in E; discriminate E end.
+Qed.
+
+(* ---- the relation between a model state and a matcher state: a permutation of the workers, and the
+   matcher's group context may already be cancelled once every goroutine has called wg.Done ---- *)
+Definition Q (s s' : st) : Prop :=
+  exists l x, Permutation (ws s) l /\ s' = set_g (setws s l) x /\ (x = g s \/ (alldone s /\ x <> GLive)).
+
+Lemma set_g_id s : set_g s (g s) = s.
+Proof. destruct s; reflexivity. Qed.
+
+Lemma Q_of_R s s' : R s s' -> Q s s'.
+Proof.
+  intros [l [Hp ->]]. exists l, (g s). split; [exact Hp|]. split; [|left; reflexivity].
+  symmetry. exact (set_g_id (setws s l)).
+Qed.
+
+Lemma Q_refl s : Q s s.
+Proof. apply Q_of_R. apply R_refl. Qed.
+
+Lemma Q_canon s : Q s (canon_ws s).
+Proof.
+  apply Q_of_R. exists (wsort (ws s)). split; [apply Permutation_sym; apply wsort_perm | reflexivity].
+Qed.
+
+Lemma Q_trans a b c : Q a b -> Q b c -> Q a c.
+Proof.
+  intros [l [x [Hp [-> Hx]]]] [l' [x' [Hp' [-> Hx']]]].
+  exists l', x'. split; [|split; [reflexivity|]].
+  - unfold set_g, setws in Hp'. prj_in Hp'. eapply perm_trans; eassumption.
+  - unfold set_g, setws in Hx'. unfold alldone in *. prj_in Hx'.
+    destruct Hx' as [->|[Ha Hn]]; [exact Hx|]. right. split; [|exact Hn].
+    rewrite (Permutation_length Hp). exact Ha.
+Qed.
+
+
+(* ---- eager steps against a permutation of the workers ---- *)
+Lemma eager_sim a l lb a' :
+  Permutation (ws a) l -> eager a lb -> step fv a lb = Some a' ->
+  exists lb' l', eager (setws a l) lb' /\ step fv (setws a l) lb' = Some (setws a' l') /\ Permutation (ws a') l'.
+Proof.
+  intros Hp He Hs. pose proof (Permutation_length Hp) as Hlen.
+  destruct a as [f1 f2 f3 f4 f5 f6 f7 f8 f9 f10 f11 gs ee ed f15 d tk ws1 ic f20 f21 f22 f23 f24 f25
+                 f26 f27 f28 f29 f30 f31 f32].
+  prj_in Hp. prj_in Hlen.
+  destruct lb; simpl in He; try contradiction;
+    unfold step, getw, set_disp, set_w, set_cons, set_g, set_harness in Hs; prj_in Hs.
+  - (* TCloseIn *) dstepH Hs. inversion Hs; subst a'. exists TCloseIn, l. unf.
+    split; [exact I|]. split; [reflexivity | exact Hp].
+  - (* TDRet *) dstepH Hs. inversion Hs; subst a'. exists TDRet, l. unf. rewrite E0.
+    split; [exact He|]. split; [reflexivity | exact Hp].
+  - (* TInClosed *) destruct (nth_error ws1 w) as [y|] eqn:E; [|discriminate Hs].
+    destruct (perm_nth_upd _ _ Hp _ _ E) as [w' [E' Hu]].
+    dstepH Hs. inversion Hs; subst a'. exists (TInClosed w'). eexists. unf. rewrite E'.
+    split; [exact I|]. split; [reflexivity | apply Hu].
+  - (* TWExit *) destruct (nth_error ws1 w) as [y|] eqn:E; [|discriminate Hs].
+    destruct (perm_nth_upd _ _ Hp _ _ E) as [w' [E' Hu]].
+    dstepH Hs. inversion Hs; subst a'. exists (TWExit w'). eexists. unf. rewrite E', <- Hlen.
+    split; [exact I|]. split; [reflexivity | apply Hu].
+  - (* TWRet *) prj_in He. destruct (perm_nth_upd _ _ Hp _ _ He) as [w' [E' Hu]].
+    rewrite He in Hs. dstepH Hs. inversion Hs; subst a'. exists (TWRet w'). eexists.
+    split; [exact E'|]. unf. rewrite E', E.
+    split; [reflexivity | apply Hu].
+  - (* TLoop *) dstepH Hs; inversion Hs; subst a'; exists TLoop, l; unf; rewrite ?E2;
+      (split; [exact I|]); (split; [reflexivity | exact Hp]).
+  - (* TPut *) dstepH Hs. inversion Hs; subst a'. exists TPut, l. unf. rewrite E0.
+    split; [exact I|]. split; [reflexivity | exact Hp].
+  - (* TWait *) dstepH Hs. inversion Hs; subst a'. exists TWait, l. unf. rewrite <- Hlen, E0.
+    split; [exact I|]. split; [reflexivity | exact Hp].
+  - (* TCloseWait *) dstepH Hs. inversion Hs; subst a'. exists TCloseWait, l. unf. rewrite <- Hlen, E0.
+    split; [exact I|]. split; [reflexivity | exact Hp].
+Qed.
+
+
+Lemma mu_dec s a s1 : eager s a -> step fv s a = Some s1 -> mu s1 < mu s.
+Proof.
+  intros He Hs.
+  destruct s as [f1 f2 f3 f4 f5 f6 f7 f8 f9 f10 f11 gs ee ed f15 d tk ws1 ic f20 f21 f22 f23 f24 f25
+                 f26 f27 f28 f29 f30 f31 f32].
+  destruct a; simpl in He; try contradiction;
+    unfold step, getw, set_disp, set_w, set_cons, set_g, set_harness in Hs; prj_in Hs; dstepH Hs;
+    inversion Hs; subst s1; unfold mu; prj; cbn [mu_d mu_c];
+    try (match goal with E : nth_error _ ?w = Some ?y |- context [upd _ ?w ?x] =>
+           pose proof (msum_upd mu_w _ w x y E) as Hu; cbn [mu_w] in Hu end); try lia.
+Qed.
+
+Lemma mu_canon s : mu (canon_ws s) = mu s.
+Proof.
+  unfold mu, canon_ws, setws. prj. rewrite (msum_perm mu_w _ _ (wsort_perm (ws s))). reflexivity.
+Qed.
+
+Lemma eager_vis s a : eager s a -> vis a = None.
+Proof. destruct a; simpl; intros H; try contradiction; reflexivity. Qed.
+
+Lemma eager_qstep s0 s a : eager s0 a -> qstep fv s a = step fv s a.
+Proof. destruct a; simpl; intros H; try contradiction; reflexivity. Qed.
+
+Lemma eager_qcls s a : eager s a -> qcls a = true.
+Proof. destruct a; simpl; intros H; try contradiction; reflexivity. Qed.
+
+Lemma eager_not_quiescent s a s1 : eager s a -> step fv s a = Some s1 -> quiescent fv s = false.
+Proof.
+  intros He Hs. destruct (quiescent fv s) eqn:Qs; [|reflexivity].
+  rewrite (proj1 (quiescent_spec fv s) Qs a (eager_qcls s a He)) in Hs. discriminate Hs.
+Qed.
+
+Lemma eager_set_g s x a : eager (set_g s x) a <-> eager s a.
+Proof. destruct a; simpl; split; intros H; exact H. Qed.
+
+(* ---- once every goroutine is done the group context is dead: only TParentProp reads it ---- *)
+Definition gnext (l : lab) (x : gstate) : gstate :=
+  match l with
+  | TWait | TCloseWait => cancelG x ByWait
+  | TCloseCancel => cancelG x ByClose
+  | _ => x
+  end.
+
+Lemma gnext_live l x : x <> GLive -> gnext l x <> GLive.
+Proof. destruct x; [congruence|]. intros _. destruct l; simpl; discriminate. Qed.
+
+Lemma step_set_g s x l : good s -> alldone s -> l <> TParentProp ->
+  step fv (set_g s x) l = match step fv s l with Some t => Some (set_g t (gnext l x)) | None => None end.
+Proof.
+  intros Hg Ha Hl. destruct (alldone_inv s Hg Ha) as [Hd Hw].
+  destruct s as [f1 f2 f3 f4 f5 f6 f7 f8 f9 f10 f11 gs ee ed f15 d tk ws1 ic f20 f21 f22 f23 f24 f25
+                 f26 f27 f28 f29 f30 f31 f32].
+  prj_in Hd. prj_in Hw. subst d.
+  destruct l; try (exfalso; apply Hl; reflexivity);
+    unfold step, getw, set_disp, set_w, set_cons, set_g, set_harness, gnext; prj; try reflexivity;
+    try (match goal with |- context [nth_error ws1 ?w] =>
+           let y := fresh "y" in let E := fresh "E" in
+           destruct (nth_error ws1 w) as [y|] eqn:E; [apply Hw in E; subst y|]; reflexivity end);
+    repeat (match goal with |- context [match ?e with _ => _ end] => destruct e end; try reflexivity).
+Qed.
+
+
+(* ---- an enabled eager step commutes with every other enabled step ---- *)
+Ltac unfs := unfold step, getw, set_disp, set_w, set_cons, set_g, set_harness.
+Ltac unfs_in H := unfold step, getw, set_disp, set_w, set_cons, set_g, set_harness in H.
+Ltac fin_fields :=
+  apply f_equal; rewrite ?upd_length; f_equal; try reflexivity; try (apply upd_comm; congruence).
+Ltac upd_other :=
+  repeat match goal with
+         | H : ?a <> ?b |- context [nth_error (upd _ ?b _) ?a] => rewrite (nth_error_upd_other _ b a _ (not_eq_sym H))
+         | H : ?a <> ?b |- context [nth_error (upd _ ?a _) ?b] => rewrite (nth_error_upd_other _ a b _ H)
+         end.
+Ltac windex Hl w :=
+  match type of Hl with
+  | context [nth_error _ ?w0] =>
+      lazymatch w0 with
+      | w => fail
+      | _ => destruct (Nat.eq_dec w0 w) as [->|Hne]
+      end
+  end.
+Ltac wcase Hl E w :=
+  try (windex Hl w; [ rewrite E in Hl; try discriminate Hl | upd_other ]).
+Ltac destr_st s :=
+  destruct s as [f1 f2 f3 f4 f5 f6 f7 f8 f9 f10 f11 gs ee ed f15 d tk ws1 ic f20 f21 f22 f23 f24 f25
+                 f26 f27 f28 f29 f30 f31 f32].
+
+
+Lemma diamond_TCloseIn s s1 l t :
+  step fv s TCloseIn = Some s1 -> step fv s l = Some t ->
+  l = TCloseIn \/ exists u, step fv s1 l = Some u /\ step fv t TCloseIn = Some u.
+Proof.
+  intros Ha Hl. destr_st s.
+  unfs_in Ha; prj_in Ha. dstepH Ha. inversion Ha; subst s1; clear Ha.
+  destruct l; unfs_in Hl; unfs; prj_in Hl; prj;
+    try discriminate Hl; try (left; reflexivity);
+    dstepH Hl; inversion Hl; subst t; clear Hl; right; eexists; (split; [reflexivity|]); prj; reflexivity.
+Qed.
+
+Ltac core Hl t :=
+  dstepH Hl; inversion Hl; subst t; clear Hl; right; eexists; (split; [reflexivity|]); prj; upd_other;
+  rew_eqns; try reflexivity; fin_fields.
+
+
+
+Lemma diamond_TLoop s s1 l t :
+  step fv s TLoop = Some s1 -> step fv s l = Some t ->
+  l = TLoop \/ exists u, step fv s1 l = Some u /\ step fv t TLoop = Some u.
+Proof.
+  intros Ha Hl. destr_st s.
+  unfs_in Ha; prj_in Ha. dstepH Ha; inversion Ha; subst s1; clear Ha.
+  all: destruct l; unfs_in Hl; unfs; prj_in Hl; prj;
+    try discriminate Hl; try (left; reflexivity); core Hl t.
+Qed.
+
+Lemma diamond_TPut s s1 l t :
+  step fv s TPut = Some s1 -> step fv s l = Some t ->
+  l = TPut \/ exists u, step fv s1 l = Some u /\ step fv t TPut = Some u.
+Proof.
+  intros Ha Hl. destr_st s.
+  unfs_in Ha; prj_in Ha. dstepH Ha; inversion Ha; subst s1; clear Ha.
+  destruct l; unfs_in Hl; unfs; prj_in Hl; prj;
+    try discriminate Hl; try (left; reflexivity); try solve [core Hl t].
+  dstepH Hl; inversion Hl; subst t; clear Hl; right; eexists; (split; [reflexivity|]); prj.
+  replace (n <? f4) with true; [reflexivity|].
+  symmetry. apply Nat.ltb_lt. apply Nat.ltb_lt in E0. lia.
+Qed.
+
+Lemma wfin_lt l w x : nth_error l w = Some x -> wfin x = 0 -> msum wfin l < length l.
+Proof.
+  intros E H0. pose proof (msum_upd wfin l w TDone x E) as U. simpl in U.
+  pose proof (msum_le_length wfin (upd l w TDone) wfin_le1) as Hle. rewrite upd_length in Hle. lia.
+Qed.
+
+Ltac kill_wait :=
+  try (exfalso; match goal with E : (_ =? S _) = true |- _ => apply Nat.eqb_eq in E; cbn [ddone] in *; lia end).
+
+Lemma diamond_TDRet s s1 l t :
+  good s -> disp s = SRet None -> step fv s TDRet = Some s1 -> step fv s l = Some t ->
+  l = TDRet \/ exists u, step fv s1 l = Some u /\ step fv t TDRet = Some u /\ disp t = SRet None.
+Proof.
+  intros [_ Hg2] Hd Ha Hl. destr_st s. prj_in Hg2. prj_in Hd. subst d.
+  pose proof (msum_le_length wfin ws1 wfin_le1) as Hle.
+  unfs_in Ha; prj_in Ha. cbn [record] in Ha. inversion Ha; subst s1; clear Ha.
+  destruct l; unfs_in Hl; unfs; prj_in Hl; prj;
+    try discriminate Hl; try (left; reflexivity).
+  all: dstepH Hl; kill_wait.
+  all: inversion Hl; subst t; clear Hl; right; eexists; (split; [reflexivity|]); prj; cbn [record].
+  all: (split; [|reflexivity]).
+  all: rew_eqns; try reflexivity; fin_fields.
+Qed.
+
+Lemma diamond_TInClosed s w s1 l t :
+  good s -> step fv s (TInClosed w) = Some s1 -> step fv s l = Some t ->
+  l = TInClosed w \/ exists u, step fv s1 l = Some u /\ step fv t (TInClosed w) = Some u.
+Proof.
+  intros [Hg1 _] Ha Hl. destr_st s. prj_in Hg1.
+  unfs_in Ha; prj_in Ha. dstepH Ha. inversion Ha; subst s1; clear Ha. specialize (Hg1 eq_refl).
+  destruct l; unfs_in Hl; unfs; prj_in Hl; prj; rewrite ?upd_length;
+    try discriminate Hl; wcase Hl E w; try (left; reflexivity).
+  all: dstepH Hl; try (exfalso; exact Hg1).
+  all: inversion Hl; subst t; clear Hl; right; eexists; (split; [reflexivity|]); prj; upd_other.
+  all: rew_eqns; try reflexivity; fin_fields.
+Qed.
+
+Lemma diamond_TWExit s w s1 l t :
+  step fv s (TWExit w) = Some s1 -> step fv s l = Some t ->
+  l = TWExit w \/ exists u, step fv s1 l = Some u /\ step fv t (TWExit w) = Some u.
+Proof.
+  intros Ha Hl. destr_st s.
+  unfs_in Ha; prj_in Ha. dstepH Ha. inversion Ha; subst s1; clear Ha.
+  destruct l; unfs_in Hl; unfs; prj_in Hl; prj; rewrite ?upd_length;
+    try discriminate Hl; wcase Hl E w; try (left; reflexivity).
+  all: dstepH Hl.
+  all: inversion Hl; subst t; clear Hl; right; eexists; (split; [reflexivity|]); prj; upd_other.
+  all: rew_eqns; try reflexivity; fin_fields.
+Qed.
+
+Lemma diamond_TWRet s w s1 l t :
+  good s -> nth_error (ws s) w = Some (TRet None) -> step fv s (TWRet w) = Some s1 -> step fv s l = Some t ->
+  l = TWRet w \/ exists u, step fv s1 l = Some u /\ step fv t (TWRet w) = Some u
+                           /\ nth_error (ws t) w = Some (TRet None).
+Proof.
+  intros [_ Hg2] E Ha Hl. destr_st s. prj_in Hg2. prj_in E.
+  pose proof (wfin_lt ws1 w _ E eq_refl) as Hlt.
+  assert (Hdd : ddone d <= 1) by (destruct d; simpl; lia).
+  unfs_in Ha; prj_in Ha. rewrite E in Ha. cbn [record] in Ha. inversion Ha; subst s1; clear Ha.
+  destruct l; unfs_in Hl; unfs; prj_in Hl; prj; rewrite ?upd_length;
+    try discriminate Hl; wcase Hl E w; try (left; reflexivity).
+  all: dstepH Hl; kill_wait.
+  all: inversion Hl; subst t; clear Hl; right; eexists; (split; [reflexivity|]); prj; upd_other; cbn [record].
+  all: (split; [|try exact E]).
+  all: rew_eqns; cbn [record]; try reflexivity; try fin_fields.
+Qed.
+
+Ltac kill_done Hw :=
+  try (match goal with E : nth_error _ _ = Some _ |- _ => apply Hw in E; discriminate E end).
+
+Lemma diamond_TWait s s1 l t :
+  good s -> step fv s TWait = Some s1 -> step fv s l = Some t ->
+  l = TWait \/ (exists u, step fv s1 l = Some u /\ step fv t TWait = Some u) \/
+  (l = TParentProp /\ exists u, step fv t TWait = Some u /\ Q u s1).
+Proof.
+  intros Hg Ha Hl.
+  assert (Had : alldone s).
+  { unfold alldone. unfs_in Ha. destruct (cons s); try discriminate Ha.
+    destruct (egdone s =? S (length (ws s))) eqn:E; [|discriminate Ha]. apply Nat.eqb_eq. exact E. }
+  destruct (alldone_inv s Hg Had) as [Hd Hw]. clear Hg.
+  destr_st s. prj_in Hd. prj_in Hw. subst d. unfold alldone in Had. prj_in Had.
+  unfs_in Ha; prj_in Ha. dstepH Ha. inversion Ha; subst s1; clear Ha.
+  destruct l; unfs_in Hl; unfs; prj_in Hl; prj; rewrite ?upd_length;
+    try discriminate Hl; try (left; reflexivity).
+  all: dstepH Hl; kill_done Hw.
+  all: inversion Hl; subst t; clear Hl; right.
+  all: try (left; eexists; (split; [reflexivity|]); prj; rew_eqns; try reflexivity; fin_fields).
+  right. split; [reflexivity|]. eexists. split; [prj; rewrite E0; reflexivity|].
+  exists ws1, (GDone ByWait). split; [apply Permutation_refl|]. split; [reflexivity|].
+  right. split; [unfold alldone; prj; exact Had | discriminate].
+Qed.
+
+Lemma diamond_TCloseWait s s1 l t :
+  good s -> step fv s TCloseWait = Some s1 -> step fv s l = Some t ->
+  l = TCloseWait \/ (exists u, step fv s1 l = Some u /\ step fv t TCloseWait = Some u) \/
+  (l = TParentProp /\ exists u, step fv t TCloseWait = Some u /\ Q u s1).
+Proof.
+  intros Hg Ha Hl.
+  assert (Had : alldone s).
+  { unfold alldone. unfs_in Ha. destruct (cons s); try discriminate Ha.
+    destruct (egdone s =? S (length (ws s))) eqn:E; [|discriminate Ha]. apply Nat.eqb_eq. exact E. }
+  destruct (alldone_inv s Hg Had) as [Hd Hw]. clear Hg.
+  destr_st s. prj_in Hd. prj_in Hw. subst d. unfold alldone in Had. prj_in Had.
+  unfs_in Ha; prj_in Ha. dstepH Ha. inversion Ha; subst s1; clear Ha.
+  destruct l; unfs_in Hl; unfs; prj_in Hl; prj; rewrite ?upd_length;
+    try discriminate Hl; try (left; reflexivity).
+  all: dstepH Hl; kill_done Hw.
+  all: inversion Hl; subst t; clear Hl; right.
+  all: try (left; eexists; (split; [reflexivity|]); prj; rew_eqns; try reflexivity; fin_fields).
+  right. split; [reflexivity|]. eexists. split; [prj; rewrite E0; reflexivity|].
+  exists ws1, (GDone ByWait). split; [apply Permutation_refl|]. split; [reflexivity|].
+  right. split; [unfold alldone; prj; exact Had | discriminate].
+Qed.
+
+
+Lemma diamond s a s1 l t :
+  good s -> eager s a -> qstep fv s a = Some s1 -> qstep fv s l = Some t ->
+  l = a \/
+  (exists u, qstep fv s1 l = Some u /\ qstep fv t a = Some u /\ eager t a) \/
+  (vis l = None /\ exists u, qstep fv t a = Some u /\ eager t a /\ Q u s1).
+Proof.
+  intros Hg He Ha Hl. rewrite (eager_qstep s s a He) in Ha.
+  assert (Hd : l = LQuiesce \/ l <> LQuiesce) by (destruct l; (left; reflexivity) || (right; discriminate)).
+  destruct Hd as [->|Hnq].
+  { simpl in Hl. rewrite (eager_not_quiescent s a s1 He Ha) in Hl. discriminate Hl. }
+  rewrite (qstep_step fv s l Hnq) in Hl.
+  assert (Hc : l = a \/
+               (exists u, step fv s1 l = Some u /\ step fv t a = Some u /\ eager t a) \/
+               (vis l = None /\ exists u, step fv t a = Some u /\ eager t a /\ Q u s1)).
+  { destruct a; simpl in He; try contradiction.
+    - destruct (diamond_TCloseIn s s1 l t Ha Hl) as [->|[u [H1 H2]]]; [left; reflexivity|].
+      right; left. exists u. split; [exact H1|]. split; [exact H2 | exact I].
+    - destruct (diamond_TDRet s s1 l t Hg He Ha Hl) as [->|[u [H1 [H2 H3]]]]; [left; reflexivity|].
+      right; left. exists u. split; [exact H1|]. split; [exact H2 | exact H3].
+    - destruct (diamond_TInClosed s w s1 l t Hg Ha Hl) as [->|[u [H1 H2]]]; [left; reflexivity|].
+      right; left. exists u. split; [exact H1|]. split; [exact H2 | exact I].
+    - destruct (diamond_TWExit s w s1 l t Ha Hl) as [->|[u [H1 H2]]]; [left; reflexivity|].
+      right; left. exists u. split; [exact H1|]. split; [exact H2 | exact I].
+    - destruct (diamond_TWRet s w s1 l t Hg He Ha Hl) as [->|[u [H1 [H2 H3]]]]; [left; reflexivity|].
+      right; left. exists u. split; [exact H1|]. split; [exact H2 | exact H3].
+    - destruct (diamond_TLoop s s1 l t Ha Hl) as [->|[u [H1 H2]]]; [left; reflexivity|].
+      right; left. exists u. split; [exact H1|]. split; [exact H2 | exact I].
+    - destruct (diamond_TPut s s1 l t Ha Hl) as [->|[u [H1 H2]]]; [left; reflexivity|].
+      right; left. exists u. split; [exact H1|]. split; [exact H2 | exact I].
+    - destruct (diamond_TWait s s1 l t Hg Ha Hl) as [->|[[u [H1 H2]]|[-> [u [H2 H3]]]]]; [left; reflexivity| |].
+      + right; left. exists u. split; [exact H1|]. split; [exact H2 | exact I].
+      + right; right. split; [reflexivity|]. exists u. split; [exact H2|]. split; [exact I | exact H3].
+    - destruct (diamond_TCloseWait s s1 l t Hg Ha Hl) as [->|[[u [H1 H2]]|[-> [u [H2 H3]]]]]; [left; reflexivity| |].
+      + right; left. exists u. split; [exact H1|]. split; [exact H2 | exact I].
+      + right; right. split; [reflexivity|]. exists u. split; [exact H2|]. split; [exact I | exact H3]. }
+  destruct Hc as [->|[[u [Hu1 [Hu2 Het]]]|[Hv [u [Hu2 [Het Hq]]]]]]; [left; reflexivity| |].
+  - right. left. exists u. rewrite (qstep_step fv s1 l Hnq), (eager_qstep s t a He).
+    split; [exact Hu1|]. split; [exact Hu2 | exact Het].
+  - right. right. split; [exact Hv|]. exists u. rewrite (eager_qstep s t a He).
+    split; [exact Hu2|]. split; [exact Het | exact Hq].
+Qed.
+
+(* ---- the reduced enumeration ---- *)
+Lemma in_eager_labels s a : In a (eager_labels s) -> eager s a.
+Proof.
+  unfold eager_labels. intros Hin. apply in_app_or in Hin. destruct Hin as [Hin|Hin].
+  - simpl in Hin. repeat (destruct Hin as [<-|Hin]; [exact I|]). destruct Hin.
+  - apply in_app_or in Hin. destruct Hin as [Hin|Hin].
+    + destruct (disp s) as [ | | | |r|r|r|r| ] eqn:Ed; simpl in Hin; try contradiction.
+      destruct r; simpl in Hin; try contradiction. destruct Hin as [<-|[]]. exact Ed.
+    + apply in_flat_map in Hin. destruct Hin as [w [_ Hin]]. apply in_app_or in Hin. destruct Hin as [Hin|Hin].
+      * simpl in Hin. destruct Hin as [<-|[<-|[]]]; exact I.
+      * destruct (nth_error (ws s) w) as [y|] eqn:E; [|destruct Hin].
+        destruct y as [ | | | |r|r| ]; try (destruct Hin).
+        destruct r; simpl in Hin; try contradiction. destruct Hin as [<-|[]]. exact E.
+Qed.
+
+Lemma first_idle_spec : forall l i w, nth_error l w = Some TIdle ->
+  exists w0, first_idle l i = [i + w0] /\ nth_error l w0 = Some TIdle.
+Proof.
+  induction l as [|x t IH]; intros i w H; [destruct w; discriminate H|].
+  assert (Hx : x = TIdle \/ x <> TIdle) by (destruct x; (left; reflexivity) || (right; discriminate)).
+  destruct Hx as [->|Hx].
+  - exists 0. rewrite Nat.add_0_r. split; reflexivity.
+  - destruct w as [|w]; simpl in H; [inversion H; contradiction|].
+    destruct (IH (S i) w H) as [w0 [Hf Hn]]. exists (S w0).
+    replace (i + S w0) with (S i + w0) by lia. split; [|exact Hn].
+    destruct x; try exact Hf. contradiction Hx; reflexivity.
+Qed.
+
+Ltac in_list := solve [simpl; repeat (first [left; reflexivity | right])].
+
+Lemma labels_red s l t :
+  good s -> vis l = None -> qstep fv s l = Some t ->
+  (exists a0 s1, In a0 (tau_labels fv s) /\ eager s a0 /\ qstep fv s a0 = Some s1) \/
+  (exists l0 t0, In l0 (tau_labels fv s) /\ vis l0 = None /\ qstep fv s l0 = Some t0 /\ Q t t0).
+Proof.
+  intros Hg Hv Hst. unfold tau_labels.
+  destruct (filter (enabled fv s) (eager_labels s)) as [|a0 rest] eqn:Ef.
+  - right.
+    assert (Hno : forall a, In a (eager_labels s) -> step fv s a = None).
+    { intros a Hin. destruct (step fv s a) as [x|] eqn:Es; [exfalso|reflexivity].
+      assert (Hf : In a (filter (enabled fv s) (eager_labels s))).
+      { apply filter_In. split; [exact Hin | unfold enabled; rewrite Es; reflexivity]. }
+      rewrite Ef in Hf. destruct Hf. }
+    assert (Hw : forall w x, nth_error (ws s) w = Some x -> In w (seq 0 (length (ws s)))).
+    { intros w x E. apply in_seq. split; [apply Nat.le_0_l | exact (getw_lt s w x E)]. }
+    assert (Hwe : forall w, step fv s (TInClosed w) <> None \/ step fv s (TWExit w) <> None \/
+                            step fv s (TWSend w) <> None \/ step fv s (TWCtx w) <> None \/
+                            step fv s (TWRet w) <> None -> In w (seq 0 (length (ws s)))).
+    { intros w H. destruct (nth_error (ws s) w) as [x|] eqn:E; [exact (Hw w x E)|].
+      exfalso. unfold step, getw in H. rewrite E in H. decompose [or] H; congruence. }
+    assert (Hdirect : forall l0, In l0 [TDReady; TDCtx; TDRet; TRecv; TCClosed; TNextCtx; TWait; TCloseCancel;
+                                         TCloseWait; TParentProp] -> vis l0 = None ->
+              step fv s l0 = Some t ->
+              exists l1 t0, In l1 ([TDReady; TDCtx; TDRet; TRecv; TCClosed; TNextCtx; TWait; TCloseCancel;
+                                     TCloseWait; TParentProp]
+                                    ++ map TDispatch (first_idle (ws s) 0)
+                                    ++ flat_map (fun w => [TWSend w; TWCtx w; TWRet w]) (seq 0 (length (ws s))))
+                            /\ vis l1 = None /\ qstep fv s l1 = Some t0 /\ Q t t0).
+    { intros l0 Hin Hv0 Hs0. exists l0, t. split; [apply in_or_app; left; exact Hin|].
+      split; [exact Hv0|]. split; [|apply Q_refl].
+      rewrite qstep_step; [exact Hs0 | intros ->; discriminate Hv0]. }
+    assert (Hworker : forall w l0, In l0 [TWSend w; TWCtx w; TWRet w] -> In w (seq 0 (length (ws s))) ->
+              step fv s l0 = Some t ->
+              exists l1 t0, In l1 ([TDReady; TDCtx; TDRet; TRecv; TCClosed; TNextCtx; TWait; TCloseCancel;
+                                     TCloseWait; TParentProp]
+                                    ++ map TDispatch (first_idle (ws s) 0)
+                                    ++ flat_map (fun w => [TWSend w; TWCtx w; TWRet w]) (seq 0 (length (ws s))))
+                            /\ vis l1 = None /\ qstep fv s l1 = Some t0 /\ Q t t0).
+    { intros w l0 Hin Hwi Hs0. exists l0, t. split.
+      { apply in_or_app; right. apply in_or_app; right. apply in_flat_map. exists w. split; [exact Hwi | exact Hin]. }
+      assert (Hv0 : vis l0 = None) by (simpl in Hin; decompose [or] Hin; subst; try reflexivity; contradiction).
+      split; [exact Hv0|]. split; [|apply Q_refl].
+      rewrite qstep_step; [exact Hs0 | intros ->; discriminate Hv0]. }
+    destruct l; simpl in Hv; try discriminate Hv; clear Hv; cbv beta iota delta [qstep] in Hst;
+      try (match type of Hst with step fv s ?l0 = Some t =>
+             apply (Hdirect l0); [in_list | reflexivity | exact Hst] end).
+    + (* TDispatch *)
+      unfold step, getw in Hst. destruct (disp s) as [ | |k|k|r|r|r|r| ] eqn:Ed; try discriminate Hst.
+      destruct (nth_error (ws s) w) as [x|] eqn:E; [|discriminate Hst].
+      destruct x; try discriminate Hst. inversion Hst; subst t; clear Hst.
+      destruct (first_idle_spec (ws s) 0 w E) as [w0 [Hf E0]]. simpl in Hf.
+      exists (TDispatch w0). eexists. split.
+      { apply in_or_app; right. apply in_or_app; left. rewrite Hf. left; reflexivity. }
+      split; [reflexivity|]. split.
+      { simpl. unfold getw. rewrite Ed, E0. reflexivity. }
+      apply Q_of_R. exists (upd (ws s) w0 (THas k)). split.
+      * prj. apply perm_upd_same_val with (x := TIdle); assumption.
+      * reflexivity.
+    + exfalso. rewrite (Hno TCloseIn) in Hst; [discriminate Hst | apply in_or_app; left; in_list].
+    + exfalso. rewrite (Hno (TInClosed w)) in Hst; [discriminate Hst|].
+      apply in_or_app; right. apply in_or_app; right. apply in_flat_map. exists w. split.
+      * apply Hwe. left. rewrite Hst. discriminate.
+      * apply in_or_app; left. in_list.
+    + apply (Hworker w (TWSend w)); [in_list | apply Hwe; right; right; left; rewrite Hst; discriminate | exact Hst].
+    + apply (Hworker w (TWCtx w)); [in_list | apply Hwe; right; right; right; left; rewrite Hst; discriminate | exact Hst].
+    + exfalso. rewrite (Hno (TWExit w)) in Hst; [discriminate Hst|].
+      apply in_or_app; right. apply in_or_app; right. apply in_flat_map. exists w. split.
+      * apply Hwe. right; left. rewrite Hst. discriminate.
+      * apply in_or_app; left. in_list.
+    + apply (Hworker w (TWRet w)); [in_list | apply Hwe; right; right; right; right; rewrite Hst; discriminate | exact Hst].
+    + exfalso. rewrite (Hno TLoop) in Hst; [discriminate Hst | apply in_or_app; left; in_list].
+    + exfalso. rewrite (Hno TPut) in Hst; [discriminate Hst | apply in_or_app; left; in_list].
+  - left.
+    assert (Hf : In a0 (filter (enabled fv s) (eager_labels s))) by (rewrite Ef; left; reflexivity).
+    apply filter_In in Hf. destruct Hf as [Hin Hen].
+    pose proof (in_eager_labels s a0 Hin) as He.
+    unfold enabled in Hen. destruct (step fv s a0) as [s1|] eqn:Es; [|discriminate Hen].
+    exists a0, s1. split; [left; reflexivity|]. split; [exact He|]. rewrite (eager_qstep s s a0 He). exact Es.
+Qed.
+
+(* ---- simulations ---- *)
+Definition gcond (s : st) (x : gstate) : Prop := x = g s \/ (alldone s /\ x <> GLive).
+
+Lemma alldone_setws s l : Permutation (ws s) l -> alldone s -> alldone (setws s l).
+Proof. intros Hp Ha. unfold alldone, setws in *. prj. rewrite <- (Permutation_length Hp). exact Ha. Qed.
+
+Lemma alldone_qstep s l t : good s -> alldone s -> qstep fv s l = Some t -> alldone t.
+Proof.
+  intros Hg Ha Hs. destruct l; try (exact (alldone_step s _ t Hg Ha Hs)).
+  unfold qstep in Hs. destruct (quiescent fv s); [|discriminate Hs]. inversion Hs; subst t. exact Ha.
+Qed.
+
+Lemma lab_TParentProp_dec l : l = TParentProp \/ l <> TParentProp.
+Proof. destruct l; (left; reflexivity) || (right; discriminate). Qed.
+
+Lemma lab_LQuiesce_dec l : l = LQuiesce \/ l <> LQuiesce.
+Proof. destruct l; (left; reflexivity) || (right; discriminate). Qed.
+
+Lemma quiescent_set_g s x : good s -> alldone s -> x <> GLive ->
+  quiescent fv s = true -> quiescent fv (set_g s x) = true.
+Proof.
+  intros Hg Ha Hx Hq. apply quiescent_spec. intros lb Hc.
+  destruct (lab_TParentProp_dec lb) as [->|Hne].
+  - unfold step, set_g. prj. destruct x; [contradiction Hx; reflexivity | reflexivity].
+  - rewrite (step_set_g s x lb Hg Ha Hne).
+    rewrite (proj1 (quiescent_spec fv s) Hq lb Hc). reflexivity.
+Qed.
+
+Lemma Q_fwd s s' l t :
+  good s -> good s' -> Q s s' -> qstep fv s l = Some t ->
+  (vis l = None /\ Q t s') \/ (exists l' t', vis l' = vis l /\ qstep fv s' l' = Some t' /\ Q t t').
+Proof.
+  intros Hg _ [l0 [x [Hp [-> Hx]]]] Hst.
+  destruct (sim_qstep fv s l0 l t Hp Hst) as [lb' [l' [Hs' [Hp' Hv]]]].
+  destruct Hx as [->|[Ha Hn]].
+  - right. exists lb', (setws t l').
+    change (set_g (setws s l0) (g s)) with (set_g (setws s l0) (g (setws s l0))). rewrite set_g_id.
+    split; [exact Hv|]. split; [exact Hs'|]. apply Q_of_R. exists l'. split; [exact Hp' | reflexivity].
+  - pose proof (good_setws s l0 Hp Hg) as Hg2. pose proof (alldone_setws s l0 Hp Ha) as Ha2.
+    pose proof (alldone_qstep s l t Hg Ha Hst) as Hat.
+    destruct (lab_LQuiesce_dec lb') as [->|Hnq].
+    { right. unfold qstep in Hs'. destruct (quiescent fv (setws s l0)) eqn:Eq; [|discriminate Hs'].
+      assert (Heq : setws s l0 = setws t l') by congruence. clear Hs'. exists LQuiesce, (set_g (setws s l0) x). split; [exact Hv|]. split.
+      - unfold qstep. rewrite (quiescent_set_g (setws s l0) x Hg2 Ha2 Hn Eq). reflexivity.
+      - exists l', x. split; [exact Hp'|]. split; [rewrite <- Heq; reflexivity|]. right. split; assumption. }
+    rewrite (qstep_step fv _ lb' Hnq) in Hs'.
+    destruct (lab_TParentProp_dec lb') as [->|Hnp].
+    + left. split; [rewrite <- Hv; reflexivity|].
+      exists l', x. split; [exact Hp'|]. split; [|right; split; assumption].
+      unfold step in Hs'. destruct (g (setws s l0)); [|discriminate Hs'].
+      destruct (pdone (setws s l0)); [|discriminate Hs'].
+      assert (Heq : set_g (setws s l0) (GDone ByParent) = setws t l') by congruence. rewrite <- Heq. reflexivity.
+    + right. exists lb', (set_g (setws t l') (gnext lb' x)). split; [exact Hv|]. split.
+      * rewrite (qstep_step fv _ lb' Hnq), (step_set_g _ x lb' Hg2 Ha2 Hnp), Hs'. reflexivity.
+      * exists l', (gnext lb' x). split; [exact Hp'|]. split; [reflexivity|]. right.
+        split; [exact Hat | apply gnext_live; exact Hn].
+Qed.
+
+Lemma Q_bwd_eager s s' a t' :
+  good s -> good s' -> Q s s' -> eager s' a -> qstep fv s' a = Some t' ->
+  exists a' t, eager s a' /\ qstep fv s a' = Some t /\ Q t t'.
+Proof.
+  intros Hg _ [l0 [x [Hp [-> Hx]]]] He Hst.
+  rewrite (eager_qstep _ _ a He) in Hst. apply eager_set_g in He.
+  pose proof (good_setws s l0 Hp Hg) as Hg2.
+  assert (H2 : exists t2 x', step fv (setws s l0) a = Some t2 /\ t' = set_g t2 x' /\ gcond t2 x').
+  { destruct Hx as [->|[Ha Hn]].
+    - exists t', (g t'). split; [|split; [symmetry; apply set_g_id | left; reflexivity]].
+      change (set_g (setws s l0) (g s)) with (set_g (setws s l0) (g (setws s l0))) in Hst.
+      rewrite set_g_id in Hst. exact Hst.
+    - pose proof (alldone_setws s l0 Hp Ha) as Ha2.
+      assert (Hnp : a <> TParentProp) by (intros ->; exact He).
+      rewrite (step_set_g _ x a Hg2 Ha2 Hnp) in Hst.
+      destruct (step fv (setws s l0) a) as [t2|] eqn:E2; [|discriminate Hst]. inversion Hst; subst t'.
+      exists t2, (gnext a x). split; [reflexivity|]. split; [reflexivity|]. right.
+      split; [exact (alldone_step _ a t2 Hg2 Ha2 E2) | apply gnext_live; exact Hn]. }
+  destruct H2 as [t2 [x' [Hs2 [-> Hc]]]].
+  destruct (eager_sim (setws s l0) (ws s) a t2 (Permutation_sym Hp) He Hs2) as [a' [l' [He' [Hs' Hp']]]].
+  rewrite setws_setws, setws_id in He', Hs'.
+  exists a', (setws t2 l'). split; [exact He'|]. rewrite (eager_qstep s s a' He'). split; [exact Hs'|].
+  exists (ws t2), x'. split; [apply Permutation_sym; exact Hp'|]. split.
+  - rewrite setws_setws, setws_id. reflexivity.
+  - destruct Hc as [->|[Ha Hn]]; [left; reflexivity|]. right. split; [|exact Hn].
+    apply alldone_setws; assumption.
+Qed.
+
+Definition ms_ws_converged (c : cfg) (evs : list lab) : bool :=
+  convergedb st lab lab (mstep_ws fv) vis lab_eqb st_eqb (tau_labels fv) labels_ev 64 (init c) evs.
+
+(* COMPLETENESS of the (sound variant of the) shipped matcher of MapStream *)
+Theorem ms_ws_accepts_complete c evs ls s :
+  ms_ws_converged c evs = true ->
+  run (qstep fv) (init c) ls = Some s -> ms_trace ls = evs ->
+  accepts_history_ws fv c evs = true.
+Proof.
+  intros Hc Hr Ht.
+  apply (por_accepts_complete st lab lab (qstep fv) vis lab_eqb st_eqb canon_ws (tau_labels fv) labels_ev
+           good Q eager mu
+           good_qstep good_canon Q_refl Q_trans Q_canon ms_st_eqb_spec
+           (fun l e H => lab_eqb_refl_vis e e (vis_idem l e H))
+           Q_fwd Q_bwd_eager eager_vis diamond
+           (fun s a s1 He Hs => mu_dec s a s1 He (eq_trans (eq_sym (eager_qstep s s a He)) Hs))
+           mu_canon labels_red (labels_ev_complete fv)
+           64 (init c) evs ls s (good_init c) Hc Hr Ht).
+Qed.
+
+Theorem ms_ws_reject_genuine c evs :
+  ms_ws_converged c evs = true -> accepts_history_ws fv c evs = false ->
+  forall ls s, run (qstep fv) (init c) ls = Some s -> ms_trace ls <> evs.
+Proof.
+  intros Hc Hacc ls s Hr Ht.
+  rewrite (ms_ws_accepts_complete c evs ls s Hc Hr Ht) in Hacc. discriminate.
+Qed.
+
+Theorem ms_ws_accepts_iff c evs :
+  ms_ws_converged c evs = true ->
+  (accepts_history_ws fv c evs = true <->
+   exists ls s, run (qstep fv) (init c) ls = Some s /\ ms_trace ls = evs).
+Proof.
+  intros Hc. split.
+  - apply ms_ws_accepts_sound.
+  - intros [ls [s [Hr Ht]]]. eapply ms_ws_accepts_complete; eassumption.
+Qed.
+
+End S.
+
+(* ---- non-vacuity ---- *)
+Example ex_ms_accepts :
+  accepts_history_ws pm_fx ex_cfg ex_hist = true /\ ms_ws_converged pm_fx ex_cfg ex_hist = true.
+Proof. vm_compute. split; reflexivity. Qed.
+
+(* the rejections of the matcher the check uses are genuine *)
+Example ex_ms_rejects :
+  accepts_history_ws pm_fx ex_cfg ex_bad = false /\ ms_ws_converged pm_fx ex_cfg ex_bad = true /\
+  accepts_history_ws pm_fx bad_cfg bad_hist = false /\ ms_ws_converged pm_fx bad_cfg bad_hist = true.
+Proof. vm_compute. repeat split; reflexivity. Qed.
+
+Example ex_ms_no_run :
+  forall ls s, run (qstep pm_fx) (init ex_cfg) ls = Some s -> ms_trace ls <> ex_bad.
+Proof.
+  apply ms_ws_reject_genuine; [exact (proj1 (proj2 ex_ms_rejects)) | exact (proj1 ex_ms_rejects)].
+Qed.
+
+(* the caller's context is cancelled while the last Next is inside eg.Wait(): the matcher has fired
+   TWait eagerly, the model may let the cancellation propagate first *)
+Definition par_cfg := mkCfg 1 1 0 [10]%Z [false] false [false] [false; false] 1.
+Definition par_hist : list lab :=
+  [LReq (RqNext 0); LCallNext 0; LSrcEnter; LSrcExit (SoItem 0); LFEnter 0 0; LFExit 0 0 FoOk;
+   LRetNext (RVal 37%Z); LSrcEnter; LSrcExit SoEnd; LSrcCloseEnter; LSrcCloseExit;
+   LReq (RqNext 0); LCallNext 0; LCancelParent; LRetNext REnd; LQuiesce].
+Definition par_bad : list lab :=
+  [LReq (RqNext 0); LCallNext 0; LSrcEnter; LSrcExit (SoItem 0); LFEnter 0 0; LFExit 0 0 FoOk;
+   LRetNext (RVal 37%Z); LSrcEnter; LSrcExit SoEnd; LSrcCloseEnter; LSrcCloseExit;
+   LReq (RqNext 0); LCallNext 0; LCancelParent; LRetNext (RErr (ECtx ByParent))].
+
+Example ex_par :
+  accepts_history_ws pm_fx par_cfg par_hist = true /\ ms_ws_converged pm_fx par_cfg par_hist = true /\
+  accepts_history_ws pm_fx par_cfg par_bad = false /\ ms_ws_converged pm_fx par_cfg par_bad = true.
+Proof. vm_compute. repeat split; reflexivity. Qed.
+
+Example ex_par_no_run :
+  forall ls s, run (qstep pm_fx) (init par_cfg) ls = Some s -> ms_trace ls <> par_bad.
+Proof.
+  apply ms_ws_reject_genuine; [exact (proj2 (proj2 (proj2 ex_par))) | exact (proj1 (proj2 (proj2 ex_par)))].
+Qed.
+
+(* the pair that does not commute is reachable: TWait disables TParentProp, and the two orders end in
+   Q-related, different states *)
+Example ex_wait_parent :
+  exists s s1 t u, reachable (qstep pm_fx) (init par_cfg) s /\ good s /\
+    step pm_fx s TWait = Some s1 /\ step pm_fx s TParentProp = Some t /\
+    step pm_fx s1 TParentProp = None /\ step pm_fx t TWait = Some u /\ g u <> g s1 /\ Q u s1.
+Proof.
+  destruct (run (qstep pm_fx) (init par_cfg)
+              [LReq (RqNext 0); LCallNext 0; LSrcEnter; LSrcExit (SoItem 0); TDReady; TDispatch 0; LFEnter 0 0;
+               LFExit 0 0 FoOk; TWSend 0; TLoop; TRecv; TLoop; TPut; LRetNext (RVal 37%Z); LSrcEnter;
+               LSrcExit SoEnd; TCloseIn; LSrcCloseEnter; LSrcCloseExit; TDRet; TInClosed 0; TWExit 0; TWRet 0;
+               LReq (RqNext 0); LCallNext 0; TLoop; TCClosed; LCancelParent]) as [s|] eqn:E;
+    [|vm_compute in E; discriminate E].
+  assert (Hre : reachable (qstep pm_fx) (init par_cfg) s) by (eexists; exact E).
+  assert (Hg : good s).
+  { revert E. generalize (good_init par_cfg). generalize (init par_cfg).
+    generalize [LReq (RqNext 0); LCallNext 0; LSrcEnter; LSrcExit (SoItem 0); TDReady; TDispatch 0; LFEnter 0 0;
+               LFExit 0 0 FoOk; TWSend 0; TLoop; TRecv; TLoop; TPut; LRetNext (RVal 37%Z); LSrcEnter;
+               LSrcExit SoEnd; TCloseIn; LSrcCloseEnter; LSrcCloseExit; TDRet; TInClosed 0; TWExit 0; TWRet 0;
+               LReq (RqNext 0); LCallNext 0; TLoop; TCClosed; LCancelParent].
+    intros ls. induction ls as [|l ls IH]; intros s0 H0 Hr; simpl in Hr.
+    - inversion Hr; subst; exact H0.
+    - destruct (qstep pm_fx s0 l) as [s1|] eqn:Es; [|discriminate Hr].
+      exact (IH s1 (good_qstep pm_fx s0 l s1 H0 Es) Hr). }
+  vm_compute in E. inversion E; subst s. clear E.
+  do 4 eexists. split; [exact Hre|]. split; [exact Hg|].
+  split; [vm_compute; reflexivity|]. split; [vm_compute; reflexivity|].
+  split; [vm_compute; reflexivity|]. split; [vm_compute; reflexivity|].
+  split; [vm_compute; discriminate|].
+  eexists _, (GDone ByWait). split; [apply Permutation_refl|]. split; [vm_compute; reflexivity|].
+  right. split; [vm_compute; reflexivity | discriminate].
+Qed.
+End MSC.
+
+Print Assumptions por_accepts_complete.
+Print Assumptions MIC.diamond.
+Print Assumptions MIC.mi_accepts_complete.
+Print Assumptions MIC.mi_reject_genuine.
+Print Assumptions MIC.mi_accepts_iff.
+Print Assumptions MIC.ex_mi_no_run.
+Print Assumptions MSC.diamond.
+Print Assumptions MSC.step_set_g.
+Print Assumptions MSC.ms_ws_accepts_complete.
+Print Assumptions MSC.ms_ws_reject_genuine.
+Print Assumptions MSC.ms_ws_accepts_iff.
+Print Assumptions MSC.ex_ms_no_run.
+Print Assumptions MSC.ex_par_no_run.
+Print Assumptions MSC.ex_wait_parent.
